@@ -23,7 +23,7 @@ from vlib import cfg, MV
 
 MANIFEST = dict(
     technique='TLA+ closed model TcpHs (handshake I-spec vs scripted peer, TLC exhaustive, P-monitors AcceptOK/ConnectOK/BadAck/ResetNeverAnswered) + paths of its state graph and seeded samples replayed on the real stack by a reactive raw-peer driver; every trace validated by TLC against the P-spec TraceHs (handshake) / TraceSock (no socket => exactly one reset)',
-    text='TLC explores every sequence of up to 4 peer segments (flags S, SA, A, R, RA, FA, none; sequence numbers irs, irs+1, irs+2, far; ack numbers iss-1, iss, iss+1, iss+2, far; arithmetic modulo 16 with the initial sequence numbers placed at 0, 1, 7, 8, 15) against the active opener, the listener and the listener in SYN-cookie mode and checks that a connection reaches Accept / Connect completes only after a SYN and a non-RST ACK of exactly iss+1, that any other acknowledgement delivered to a SYN-SENT / SYN-RCVD connection is answered by one RST carrying that number, and that a RST is never answered. Transitions of that graph and seeded scenarios (wrong ACK numbers iss+1 +- 1, +- 2^k, random; SYN option lists with MSS, window scale, timestamps, SACK-permitted, NOP/EOL padding, unknown kinds, truncated and mis-sized options, none; peer and stack ISS at 0, 2^31-1, 2^31, 2^32-1 (hook H4 for the active side, cookie linearity for the passive side); IPv4, IPv6 and cross-family (dual-stack IPv6 socket with an IPv4 peer as listener and as active opener to the v4-mapped address; IPV6_V6ONLY listener with an IPv4 peer = no socket); normal, cookie and backlog-pressure mode; random segment orders) run on a real stack; after every peer segment the driver waits until every goroutine of the stack is parked, so "nothing is emitted" and "Accept would block" are statements about a quiescent state. TLC decides from the recorded injections, emitted frames (harness decoder) and Accept / Connect results whether the P-spec admits the trace; after the handshake a write shows that segment sizes and the amount in flight respect the MSS and window (scale) the peer put on its SYN. Segments for which no socket exists (64 flag combinations, with/without ACK, payload 0..1000, wrap-adjacent numbers, IPv4/IPv6) must be answered by exactly one RST with seq = their ack number (0 without ACK) and ack = seq + length, RSTs by nothing.',
+    text='TLC explores every sequence of up to 4 peer segments (flags S, SA, A, R, RA, FA, none; sequence numbers irs, irs+1, irs+2, far; ack numbers iss-1, iss, iss+1, iss+2, far; arithmetic modulo 16 with the initial sequence numbers placed at 0, 1, 7, 8, 15) against the active opener, the listener and the listener in SYN-cookie mode and checks that a connection reaches Accept / Connect completes only after a SYN and a non-RST ACK of exactly iss+1, that any other acknowledgement delivered to a SYN-SENT / SYN-RCVD connection is answered by one RST carrying that number, and that a RST is never answered. Transitions of that graph and seeded scenarios (wrong ACK numbers iss+1 +- 1, +- 2^k, random; SYN option lists with MSS, window scale, timestamps, SACK-permitted, NOP/EOL padding, unknown kinds, truncated and mis-sized options, none; peer and stack ISS at 0, 2^31-1, 2^31, 2^32-1 (hook H4 for the active side, cookie linearity for the passive side); IPv4, IPv6 and cross-family (dual-stack IPv6 socket with an IPv4 peer as listener and as active opener to the v4-mapped address; IPV6_V6ONLY listener with an IPv4 peer = no socket); normal, cookie and backlog-pressure mode; random segment orders; re-use of a 4-tuple after a handshake that was reset, and segments after the listener was closed) run on a real stack; after every peer segment the driver waits until every goroutine of the stack is parked, so "nothing is emitted" and "Accept would block" are statements about a quiescent state. TLC decides from the recorded injections, emitted frames (harness decoder) and Accept / Connect results whether the P-spec admits the trace; after the handshake a write shows that segment sizes and the amount in flight respect the MSS and window (scale) the peer put on its SYN. Segments for which no socket exists (64 flag combinations, with/without ACK, payload 0..1000, wrap-adjacent numbers, IPv4/IPv6) must be answered by exactly one RST with seq = their ack number (0 without ACK) and ack = seq + length, RSTs by nothing.',
     design='5 C03',
     note='Deviations from DESIGN C03: own closed model TcpHs instead of a TcpImpl section; quiescence detected from goroutine states instead of hook H6 / 50 ms of silence; the replayed graph is the placement-free quotient (VIEW ViewReplay) of TcpHs: quick replays a seeded sample of 700 paths of the <= 2-segment graph, thorough every transition of the <= 3-segment graph (52 k transitions); the exhaustive TLC run covers 4 segments. A mutant accepting cookies from a stale timestamp slot is not detectable (needs > 3 minutes of waiting and is not forbidden by the statement). AcceptOK does not constrain the sequence number of the final ACK (the statement does not): observed, out of scope - synRcvdState completes on an ACK of iss+1 with ANY sequence number (no RFC 793 acceptability test), also on a duplicate SYN-ACK. A bare ACK to a listener without SYN may be dropped or reset. Known finding F21 (cookie validation accepts ack numbers iss+1+d, |d| <= 3, through the additive MSS index), F22 (it validates only ack - seq: any common shift passes) are probed with the strict spec on every run and tolerated elsewhere only in exactly that shape; F23 (an established connection answered an acceptable RST with a RST; fixed in /repo) is probed too and tolerated nowhere. Seen, belongs to C04: cookie mode rounds a peer MSS below 536 up to 536; a passive open ignores the window of the handshake-completing ACK. The 2^-22 cookie guessing probability is not explored. Timestamp negotiation (RFC 7323 drop of option-less segments) is honoured by the scripts, not modelled.')
 
@@ -414,6 +414,37 @@ def sc_v6only(rng, kf, i):
     return sc
 
 
+def sc_reuse(rng, kf, i):
+    """4-tuple reuse: a passive handshake that ends without a connection (RST at RCV.NXT, directly or after a wrong final ACK
+    was answered by a reset) leaves nothing behind - the same 4-tuple starts over with a new SYN (new ISS) like a fresh one,
+    and once the listener is closed every segment on it gets the no-socket reset."""
+    cookie = rng.choice([0, 0, 0, 1])
+    sc = base_sc(rng, 'passive', cookie, kf, 'reuse-%d' % cookie, 2)
+    st = sc['steps']
+    base = 0
+    for rnd in range(rng.choice([1, 1, 2, 3]) if i % 8 else 1):
+        st.append(send('S', base, **syn_fields(rng.choice([[], [2, 4, 5, 180]]))))
+        how = rng.choice(['rst', 'rst', 'badack', 'rstack']) if i % 8 else 'rst'
+        if how == 'badack':
+            st.append(send(rng.choice(['A', 'FA', 'PA']), base + 1, ack=1 + wrong_delta(rng) if cookie == 0 else 1 + 77, note='wrong-ack'))
+        st.append(send('RA' if how == 'rstack' else 'R', base + 1, ack=1))
+        st.append(dict(op='accept'))
+        base += rng.choice([1000, 0x10000, 0x7fffffff, 3])
+    end = rng.choice(['complete', 'close', 'close', 'close-after-complete']) if i % 8 else 'close'
+    if end in ('complete', 'close-after-complete'):
+        st.append(send('S', base, **syn_fields([2, 4, 5, 180])))
+        st.append(send('A', base + 1, ack=1))
+        st.append(dict(op='accept'))
+    if end != 'complete':
+        st.append(dict(op='closel'))
+        for _ in range(rng.randrange(1, 5) if i % 8 else 2):
+            f = rng.choice(['S', 'S', 'A', 'SA', 'FA', 'PA', 'R', 'RA', '', 'SF']) if i % 8 else 'S'
+            pp = rng.choice([0, 0, 1]) if end == 'close' else 1      # a tuple with an accepted connection still has a socket
+            st.append(send(f, rng.choice([base, base + 1, 0, 1, 5000, rng.randrange(1 << 32)]), ackabs=rng.choice(WRAP + [rng.randrange(1 << 32)]), pp=pp,
+                           n=rng.choice([0, 0, 1, 100]) if 'S' not in f else 0, seed=rng.randrange(100)))
+    return sc
+
+
 def sc_dual_badack(kf, cookie, v6peer):
     """Fixed script: dual-stack listener (IPv6 socket, v6only off), wrong final ACK then the right one."""
     fam = dict(v=6, sock=6) if v6peer else dict(v=4, sock=6)
@@ -686,10 +717,11 @@ def run(ctx):
                      replayed_transition_fraction=round(ncov / max(nedges, 1), 4), graph_max_segments=gms)
 
     # ---- seeded scenarios
-    nw, no, nr, npr, nv = ctx.pick((100, 100, 100, 16, 30), (2500, 2500, 2500, 300, 600))
+    nw, no, nr, npr, nv, nu = ctx.pick((100, 100, 100, 16, 30, 48), (2500, 2500, 2500, 300, 600, 1500))
     sscs = [sc_wrong_acks(rng, kf, i) for i in range(nw)] + [sc_options(rng, kf, i) for i in range(no)] + \
            [sc_random_walk(rng, kf, i) for i in range(nr)] + [sc_pressure(rng, kf, i) for i in range(npr)] + \
-           [sc_v6only(rng, kf, i) for i in range(nv)] + [sc_dual_badack(kf, c, p) for c in (0, 1) for p in (False, True)]
+           [sc_v6only(rng, kf, i) for i in range(nv)] + [sc_reuse(rng, kf, i) for i in range(nu)] + \
+           [sc_dual_badack(kf, c, p) for c in (0, 1) for p in (False, True)]
     # bases of the binding self-tests
     st_pas = dict(v=4, role='passive', cookie=0, port=80, backlog=4, peeriss=[hl(0xffffffff)], tag='selftest-passive', info=dict(kf),
                   steps=[dict(op='listen'), send('S', 0), send('A', 1, ack=6), send('A', 1, ack=1), dict(op='accept')])
